@@ -55,7 +55,7 @@ def cases(tier, seed):
             continue
         out.append({"fam": "vcopies", "counters": counters, "first_n": rng.randint(0, sum(counters)),
                     "variant": rng.choice(["fresh", "shared", "findfirst"])})
-    for _ in range(40 if big else 10):
+    for _ in range(60 if big else 24):
         out.append({"fam": "bigcopies", "q": rng.choice([2, 3, 7, 100, 120]), "m": rng.randint(1, 4),
                     "frac": rng.random(), "seed": rng.randrange(10 ** 6)})
         out.append({"fam": "bigv", "q": rng.randint(3, 12), "seed": rng.randrange(10 ** 6)})
@@ -230,7 +230,13 @@ def run_case(case):
         idxs = sorted({rng.randrange(want_n) for _ in range(300)} | {0, want_n - 1})
         seen = {}
         for j in idxs:
-            p = tuple(C.compute_jth_prefix_of_permutations_with_copies(q, moc, first_n, j, pm))
+            try:
+                p = tuple(C.compute_jth_prefix_of_permutations_with_copies(q, moc, first_n, j, pm))
+            except Exception as e:  # an in-range index must unrank to an arrangement
+                viol.append({"kind": "unrank_failed", "fam": fam,
+                             "msg": "%s %s first_n=%d: index %d of %d does not unrank to an arrangement (%s: %s)"
+                                    % (fam, counters[:8], first_n, j, want_n, type(e).__name__, str(e)[:80])})
+                break
             ok = len(p) == first_n and all(0 <= x < q for x in p) and all(p.count(x) <= counters[x] for x in set(p))
             if not ok:
                 viol.append({"kind": "wrong_image", "fam": fam, "msg": "%s %s first_n=%d index %d -> illegal %s" % (fam, counters[:8], first_n, j, p[:20])})
